@@ -39,7 +39,7 @@ def _load():
     return _LD
 
 
-def _fresh_fn(name):
+def _fresh_fn(name, positive=True):
     """opaque positive function: one fresh positive real per distinct argument
     term and path (weaker than an uninterpreted function, hence sound)."""
     def f(x, *a):
@@ -50,13 +50,14 @@ def _fresh_fn(name):
         cache = c.__dict__.setdefault('_fresh_cache', {})
         if cache.get('pc') is not c.pc:
             cache.clear(); cache['pc'] = c.pc
-        key = (name, z3.simplify(sym.lift_real(x)).get_id(), a)
+        sx = z3.simplify(sym.lift_real(x))
+        key = (name, sx.get_id(), a)      # sx is kept alive in the cache entry (ids are recycled otherwise)
         if key in cache: return cache[key][1]
         v = z3.Real(c.fresh_name(name))
-        c.add(v > 0)
-        c.stubs_hit.add('%s(x) opaque: fresh positive value per argument' % (name if not a else '%s(x, %r)' % (name, a[0])))
+        if positive: c.add(v > 0)
+        c.stubs_hit.add('%s opaque: a fresh %svalue per distinct argument' % ('%s(x)' % name if not a else 'x**%r' % (a[0],), 'positive ' if positive else ''))
         r = SReal(v)
-        cache[key] = (x, r)
+        cache[key] = (sx, r)
         return r
     return f
 
@@ -76,6 +77,26 @@ def _inband(t, lo, hi):
     return bool((t >= lo) & (t <= hi))
 
 
+def _prove_light(c, ob, lab):
+    """c.prove, but first with only the small path-condition entries as
+    hypotheses (a subset is sound; the giant definedness decisions of the
+    routine bodies are irrelevant to the range logic and slow the solver)."""
+    from harness.thermo_common import term_size
+    import time
+    hyps = [k for k in c.pc if term_size(k) <= 300]
+    r, dt, m, _ = solve(hyps + [z3.Not(ob)], 10000)
+    c.stats['queries'] += 1; c.stats['solver_s'] += dt; c.stats[r] = c.stats.get(r, 0) + 1
+    if r == 'unsat':
+        c.stats['obligations'] += 1; c.stats['ob_unsat'] += 1
+        return 'unsat'
+    old = c.timeout_ms
+    c.timeout_ms = 30000
+    try:
+        return c.prove(ob, lab)
+    finally:
+        c.timeout_ms = old
+
+
 # ---------------------------------------------------------------------------
 # (a) range checking
 
@@ -85,7 +106,7 @@ def _is_none(r):
     return False
 
 
-def task_bounds(fn):
+def task_bounds(fn, ms=600):
     ld = _load(); T = ld.t2thermo
     failures, samples, distinct = [], [], set()
     undecided = []
@@ -96,6 +117,30 @@ def task_bounds(fn):
         names = {}
         if t is not None: names['t'] = t.e
         if p is not None: names['p'] = p.e
+        # the stated range, written independently of the routine
+        curves = {}
+        if fn == 'cowat':
+            box = z3.And(t.e >= fr(0.01), t.e <= 350, p.e <= fr(1.0e8))
+            if _inband(t, 0.01, 350.0):
+                s67 = T.sat(t); curves['sat'] = s67.e
+                inr = z3.And(box, p.e >= s67.e)
+            else:
+                inr = z3.BoolVal(False)
+        elif fn == 'supst':
+            box = z3.And(t.e >= fr(0.01), t.e <= 800, p.e > 0)
+            if _inband(t, 0.01, TC67):
+                s67 = T.sat(t); curves['sat'] = s67.e
+                inr = z3.And(box, p.e <= s67.e)
+            elif _inband(t, TC67, 590.0):
+                b67 = T.b23p(t); curves['b23p'] = b67.e
+                inr = z3.And(box, t.e > fr(TC67), p.e <= b67.e)
+            else:
+                inr = z3.And(box, t.e > 590, p.e <= fr(1.0e8))
+        elif fn == 'sat':
+            inr = z3.And(t.e >= fr(0.01), t.e <= fr(TC67))
+        else:
+            plo = T.sat(0.01)
+            inr = z3.And(p.e >= fr(float(plo)), p.e <= fr(PC67))
         restore = []
         try:
             if fn == 'tsat':
@@ -103,7 +148,7 @@ def task_bounds(fn):
                 mm = sys.modules[ld.pkg + '._math']
                 restore = [(so, 'fsolve', so.fsolve), (mm, 'log', mm.log)]
                 so.fsolve = lambda f, x0, *a, **k: SReal(z3.Real('fsolve_root'))
-                mm.log = _fresh_fn('log')
+                mm.log = _fresh_fn('log', positive=False)
                 c.stubs_hit.add('scipy.optimize.fsolve stubbed by an unconstrained value; math.log opaque')
             try:
                 if fn == 'cowat': ret, log, _ = capture(SRC, T.cowat, t, p, True, only=('cowat',))
@@ -121,36 +166,12 @@ def task_bounds(fn):
                     where = ','.join(pinned) or 'unpinned'
                     failures.append(dict(key='bounds/%s/raises-%s/at-%s' % (fn, type(ex).__name__, where),
                                          what='%s(%s, bounds=True) raises %s' % (fn, ', '.join('%s=%s' % (k, float(v)) for k, v in w.items()), type(ex).__name__),
-                                         prescreen=True, replay=dict(kind='bounds', fn=fn, on_curve=None, expect='raises', **w)))
+                                         prescreen=True, replay=dict(kind='bounds', fn=fn, on_curve=None, expect='raises', exc=type(ex).__name__, **w)))
                     return 'raises %s (%s)' % (type(ex).__name__, where)
                 return 'raises %s (path infeasible or undecided with opaque exp: not claimed)' % type(ex).__name__
         finally:
             for o, k, v in restore: setattr(o, k, v)
         none = _is_none(ret)
-        # the stated range, written independently of the routine
-        curves = {}
-        if fn == 'cowat':
-            box = z3.And(t.e >= fr(0.01), t.e <= 350, p.e <= fr(1.0e8))
-            if _inband(t, 0.01, 350.0):
-                s67 = T.sat(t); curves['sat'] = s67.e
-                inr = z3.And(box, p.e >= s67.e)
-            else:
-                inr = z3.BoolVal(False)
-        elif fn == 'supst':
-            box = z3.And(t.e >= fr(0.01), t.e <= 800, p.e >= 0)
-            if _inband(t, 0.01, TC67):
-                s67 = T.sat(t); curves['sat'] = s67.e
-                inr = z3.And(box, p.e <= s67.e)
-            elif _inband(t, TC67, 590.0):
-                b67 = T.b23p(t); curves['b23p'] = b67.e
-                inr = z3.And(box, t.e > fr(TC67), p.e <= b67.e)
-            else:
-                inr = z3.And(box, t.e > 590, p.e <= fr(1.0e8))
-        elif fn == 'sat':
-            inr = z3.And(t.e >= fr(0.01), t.e <= fr(TC67))
-        else:
-            plo = T.sat(0.01)
-            inr = z3.And(p.e >= fr(float(plo)), p.e <= fr(PC67))
         if none:
             ob = z3.Not(inr); lab = '%s: None only outside the stated range' % fn
             if fn == 'cowat':
@@ -163,16 +184,20 @@ def task_bounds(fn):
         else:
             ob = inr; lab = '%s: a value only inside the stated range' % fn
         distinct.add((lab, z3.simplify(ob).hash()))
-        rv = c.prove(ob, lab)
+        rv = _prove_light(c, ob, lab)
         if rv == 'sat':
             neg = z3.Not(ob)
             m = c.failures[-1]['model']
             on_curve = None
             # prefer a witness well away from the (opaque) curves, else one exactly on a curve
             far = [z3.Or(p.e - cv > fr(3 * DELTA), cv - p.e > fr(3 * DELTA)) for cv in curves.values()] if p is not None else []
-            r2, m2 = c.solve(z3.And(neg, *far), full=True) if far else ('skip', None)
-            if r2 == 'sat': m = m2
-            else:
+            # (the curves are opaque to the solver: prefer states whose side of the curve does not depend on its value)
+            found = False
+            if p is not None and curves:
+                for extreme in ([p.e == fr(1.0e8)] if fn == 'cowat' else [p.e == 1]) + [z3.BoolVal(True)]:
+                    r2, m2 = c.solve(z3.And(neg, extreme, *far), full=True)
+                    if r2 == 'sat': m = m2; found = True; break
+            if not found:
                 for cn, cv in curves.items():
                     r3, m3 = c.solve(z3.And(neg, p.e == cv), full=True)
                     if r3 == 'sat': m = m3; on_curve = cn; break
@@ -186,7 +211,7 @@ def task_bounds(fn):
                                 path_condition=[str(k)[:70].replace('\n', ' ') for k in c.pc[(4 if fn in ('cowat', 'supst') else 2):][:6]]))
         return 'returns None' if none else 'returns a value'
 
-    res = sym.explore(h, _ctx(), max_paths=300)
+    res = sym.explore(h, _ctx(ms), max_paths=300)
     got = set(p.outcome for p in res['paths'])
     for want in ('returns None', 'returns a value'):
         if want not in got and not failures:
@@ -340,7 +365,8 @@ def _prescreen(results, rep):
 
 def run(tier, seed, rep):
     _load()
-    tasks = [(task_bounds, dict(fn=f)) for f in ('cowat', 'supst', 'sat', 'tsat')]
+    ms = 4000 if tier == 'thorough' else 600      # feasibility-query cap inside the routine bodies
+    tasks = [(task_bounds, dict(fn=f, ms=ms)) for f in ('cowat', 'supst', 'sat', 'tsat')]
     tasks += [(task_region_agree, {}), (task_steam_fraction, dict(stages=1)), (task_steam_fraction, dict(stages=2))]
     if seed:
         import random
@@ -361,7 +387,7 @@ def run(tier, seed, rep):
                         '(b) |sat67(t) - sat97(t)| < DELTA = %g Pa on [0.01, 350] (measured maximum 5960 Pa at 350 degC); the b23p counterpart is proved, not assumed' % DELTA,
                         '(c) saturation enthalpies are symbolic with hs > hl at each stage and hs2 > hl1; tsat/cowat/supst are replaced by stubs returning them',
                         '(a) tsat: scipy fsolve replaced by an unconstrained value, math.log opaque (only None-ness is claimed)',
-                        'stated ranges: cowat 0.01..350 degC, sat(t) <= p <= 100 MPa; supst 0.01..800 degC, 0 <= p <= sat(t) (t <= 374.15) / b23p(t) (t <= 590) / 100 MPa; sat 0.01..374.15 degC; tsat sat(0.01)..22.12 MPa']
+                        'stated ranges: cowat 0.01..350 degC, sat(t) <= p <= 100 MPa; supst 0.01..800 degC, 0 < p <= sat(t) (t <= 374.15) / b23p(t) (t <= 590) / 100 MPa; sat 0.01..374.15 degC; tsat sat(0.01)..22.12 MPa']
     rep.process_failures()
     return rep.finish(rule='one obligation per path of the routine under test: path condition AND NOT(returned None-ness matches the stated range) / AND NOT(classifiers agree) / AND NOT(0 <= f(h_a) <= f(h_b) <= 1) must be unsat; '
                       'distinct = distinct non-constant formulas by z3 AST hash')
